@@ -11,9 +11,10 @@ WIDE_IDS = [0x00000005, 0x6B646F74, 0x7FFFFFF0, 0x80000001, 0xC0DE0000, 0xFFFF00
 def feature_ids(defs):
     n = len(defs)
     if (n + 2 * sum(len(d) for d in defs)) % 3 == 0 and n <= len(WIDE_IDS):
-        step = len(WIDE_IDS) // n
-        off = sum(len(d) for d in defs) % (len(WIDE_IDS) - step * (n - 1))
-        return [WIDE_IDS[off + step * f] for f in range(n)]
+        if n == 1:
+            return [WIDE_IDS[5]]
+        # spread over the whole list, always with its two ends (ids more than 2^31 apart)
+        return [WIDE_IDS[(f * (len(WIDE_IDS) - 1)) // (n - 1)] for f in range(n)]
     return [FEAT_ID0 + f for f in range(n)]
 
 
